@@ -96,7 +96,7 @@ func runC13(c *core.Ctx) {
 			}
 		}
 	}
-	steps := 50 + ch.Int(70)
+	steps := (50 + ch.Int(70)) * c.Scale
 	for i := 0; i < steps; i++ {
 		c.Step("c13")
 		switch ch.Pick([]int{30, 30, 40}) {
